@@ -288,14 +288,19 @@ def cancelOnError (s : State) (e : Option Err) : State :=
 def releaseKeepsPaused (s : State) (e : RelErr) : Bool :=
   e == .paused && (!GS.Generated.ReqLifecycleSpec.releasePauseGuardChecksCtx || !s.ctxDone)
 
-/-- the stage order of terminateRequest that `terminate` / `finishTerminate` below mirror: the terminal
-    error is handed over first (the only blocking stage), the request is deleted and its context
-    cancelled, the loader queue dropped, the traverser stopped, and only then the two channels are
-    closed and the CancelRequest callers notified.  `GS.C04.terminate_stages_match` checks it against
-    the generated list. -/
-def modelTerminateStages : List String :=
-  ["sendTerminalError", "unprotect", "delete", "cancelFn", "loaderCleanup", "traverserShutdown",
-   "shutdownCheck", "closeProgress", "closeErrors", "notifyTerminated"]
+/-- what `terminate` / `finishTerminate` below rely on in the stage order of terminateRequest (the generated
+    `terminateStages`): the terminal error is handed over before the error channel is closed; the request's
+    context is cancelled and the traverser stopped before the progress channel is closed (otherwise the
+    visitor could send on a closed channel); each channel is closed exactly once; the CancelRequest callers
+    are notified after both closes.  Independent statements may be reordered freely.
+    `GS.C04.terminate_stages_ok` checks it on the generated list. -/
+def stagesOk (l : List String) : Bool :=
+  let idx := fun x => l.idxOf x
+  l.count "sendTerminalError" == 1 && l.count "closeProgress" == 1 && l.count "closeErrors" == 1 &&
+  l.contains "delete" && l.contains "cancelFn" && l.contains "traverserShutdown" && l.contains "notifyTerminated" &&
+  idx "sendTerminalError" < idx "closeErrors" &&
+  idx "cancelFn" < idx "closeProgress" && idx "traverserShutdown" < idx "closeProgress" &&
+  idx "closeProgress" < idx "notifyTerminated" && idx "closeErrors" < idx "notifyTerminated"
 
 /-- cancelRequest on a tracked request: remember the CancelRequest caller, cancel message to the
     request's peer, cancelOnError -/
